@@ -130,6 +130,21 @@ if __name__ == '__main__':
     elif sys.argv[1] == 'table':
         do_table()
     elif sys.argv[1] == 'runall':
+        # one worker per property (the runs of one property share its evidence file; C09 and C10 share the translator output)
+        import concurrent.futures
+        groups = {}
         for sid in sorted(os.listdir(SEEDED)):
             if os.path.exists(os.path.join(SEEDED, sid, 'meta.json')):
-                do_run(sid)
+                g = sid.split('_')[0]; g = 'C09' if g == 'C10' else g
+                groups.setdefault(g, []).append(sid)
+        def work(sids):
+            out = []
+            for sid in sids:
+                try: out.append((sid, do_run(sid)['verdict']))
+                except Exception as e: out.append((sid, 'ERROR %s' % e))
+            return out
+        jobs = int(sys.argv[2]) if len(sys.argv) > 2 else 6
+        with concurrent.futures.ThreadPoolExecutor(max_workers=jobs) as ex:
+            res = [r for rs in ex.map(work, groups.values()) for r in rs]
+        bad = [r for r in res if r[1] != 'caught-with-failing-input']
+        print('%d seeded changes, %d caught with a failing input; others: %s' % (len(res), len(res) - len(bad), bad))
